@@ -2,7 +2,7 @@
    integers keep their leading zero bytes for every key length). *)
 From V Require Import Prelude.Base Prelude.PyInt Prelude.PySlice Prelude.PyStr.
 From Coq Require Import String.
-From V Require Import gen.C_gkdi Model.Types Model.Crypto Model.KeyId Model.Gkdi Proofs.GkdiLib.
+From V Require Import gen.C_gkdi gen.K_gkdi Model.Types Model.Crypto Model.KeyId Model.Gkdi Proofs.GkdiLib.
 
 
 Definition fitsb (kl v : Z) : bool := (0 <=? v) && (v <? 256 ^ kl).
@@ -103,8 +103,16 @@ Proof.
   rewrite to_bytes_le_ok by (apply u32b_P4, Hk). reflexivity.
 Qed.
 
+Lemma len_ffk_field_list k : wf_ffk k = true -> len (concat (ffk_field_list k)) = 8 + 3 * ffk_key_length k.
+Proof.
+  intros Hwf. unfold wf_ffk, u32b in Hwf. rewrite !andb_true_iff in Hwf.
+  unfold ffk_field_list. cbv zeta. cbn [concat]. rewrite !len_app, !len_be_z, len_le by lia.
+  change (len c_FFCDH_KEY_MAGIC) with 4. change (len (@nil Z)) with 0. lia.
+Qed.
+
 Lemma FFCDHKey_unpack_fields k : wf_ffk k = true -> FFCDHKey_unpack (concat (ffk_field_list k)) = Ok k.
 Proof.
+  intros Hwf0. pose proof (len_ffk_field_list k Hwf0) as Hlenall. revert Hwf0.
   unfold wf_ffk. rewrite !andb_true_iff. intros [[[Hk Hfo] Hg] Hp].
   assert (Hk0 : 0 <= ffk_key_length k) by (unfold u32b in Hk; lia).
   unfold FFCDHKey_unpack. cbv zeta. rewrite (slice_none_lo (Some 4) (concat _)).
@@ -114,6 +122,9 @@ Proof.
   assert (Hf1 : le_val (@nth (list Z) 1 fs []) = ffk_key_length k)
     by (unfold fs, ffk_field_list; cbv zeta; cbn [nth]; apply le4_val, Hk).
   rewrite !Hf1.
+  (* the data is exactly 8 + 3 * key_length octets long: the truncation guard does not fire *)
+  fold fs in Hlenall. rewrite Hlenall. unfold k_ffcdhkey_short.
+  destruct (8 + 3 * ffk_key_length k <? 8 + ffk_key_length k * 3) eqn:Eshort; [lia|].
   rewrite (slice_field fs 2 8 (8 + ffk_key_length k)) by (unfold fs, ffk_field_list; offs).
   rewrite (slice_tail fs 3 (8 + ffk_key_length k)) by (unfold fs, ffk_field_list; offs).
   unfold fs, ffk_field_list. cbv zeta. cbn [nth skipn concat]. rewrite beqb_refl. cbn [negb]. rewrite app_nil_r.
